@@ -4,6 +4,7 @@ import (
 	"fmt"
 	"hash/fnv"
 	"strings"
+	"sync"
 
 	"verifharness/pkg/gen"
 	"verifharness/pkg/h"
@@ -263,8 +264,67 @@ func hashCollisionCases(rr *h.Rand) []selCase {
 	return out
 }
 
+// concurrentSel: several goroutines evaluate different template selectors on one store at the same time, on
+// fresh topics (nothing answered from the match cache): every answer must be the protocol's, whatever the
+// interleaving — the "under concurrent evaluation" clause, on the implementation alone (no model involved).
+func concurrentSel(c *h.Ctx, r *h.Report, o *gen.Oracle) {
+	for _, capacity := range []int{0, 1000} {
+		store, err := mercure.NewTopicSelectorStoreLRU(int64(capacity), 4)
+		if err != nil {
+			panic(err)
+		}
+		sels := []string{"https://example.com/a/{id}", "https://example.com/b/{id}", "https://example.com/c/{x}/{y}"}
+		n := c.Scale(20000, 200000)
+		type bad struct {
+			topic, sel string
+			got        bool
+		}
+		found := make(chan bad, 16)
+		var wg sync.WaitGroup
+		for g := 0; g < 6; g++ {
+			wg.Add(1)
+			go func(g int) {
+				defer wg.Done()
+				sel := sels[g%len(sels)]
+				for i := 0; i < n; i++ {
+					// half of the topics are expansions of this goroutine's selector, half of another's
+					other := sels[(g+1+i%2)%len(sels)]
+					for _, t := range []struct {
+						topic string
+						want  bool
+					}{
+						{strings.NewReplacer("{id}", fmt.Sprint("g", g, "i", i), "{x}", fmt.Sprint("g", g), "{y}", fmt.Sprint(i)).Replace(sel), true},
+						{strings.NewReplacer("{id}", fmt.Sprint("g", g, "i", i), "{x}", fmt.Sprint("g", g), "{y}", fmt.Sprint(i)).Replace(other), other == sel},
+					} {
+						if got := store.VerifMatch(t.topic, sel); got != t.want {
+							select {
+							case found <- bad{t.topic, sel, got}:
+							default:
+							}
+
+							return
+						}
+					}
+				}
+			}(g)
+		}
+		wg.Wait()
+		close(found)
+		r.Evaluations += 6 * n * 2
+		r.CountN(fmt.Sprintf("concurrent:cap=%d lookups", capacity), 6*n*2)
+		for b := range found {
+			if o.Spec(b.topic, b.sel) == b.got {
+				continue // the harness's expectation was wrong, not the store
+			}
+			r.Violate(h.Violation{Key: "C11:answer-differs-under-concurrent-evaluation",
+				What:   fmt.Sprintf("with 6 goroutines evaluating 3 template selectors on one store (capacity %d), match(topic=%q, selector=%q) answered %v; the protocol relation says %v", capacity, b.topic, b.sel, b.got, !b.got),
+				Replay: map[string]any{"family": "sel", "note": "concurrent stage: not replayable as a single history; re-run the family", "topic": b.topic, "selector": b.sel, "capacity": capacity}})
+		}
+	}
+}
+
 func runSel(c *h.Ctx, r *h.Report) {
-	r.Rule = "lookup histories over a per-case pool (templates from a grammar over all RFC 6570 operators/modifiers with their expansions and near-misses, literals, malformed templates, '*'), against stores of capacity {0,1,2,10000} x shards {1,4,256}; adversarial stream adds, for every occurrence of the cache-key separator, the pair that moves text across it; a hash-collision stream looks up pairs of distinct keys (same selector with a matching and a non-matching topic; two selectors) that a birthday search found to collide under FNV-32a, the cache's shard hash. Non-trivial = history that repeats a (topic, template-selector) pair and contains both a true and a false non-reflexive answer; distinct by content."
+	r.Rule = "lookup histories over a per-case pool (templates from a grammar over all RFC 6570 operators/modifiers with their expansions and near-misses, literals, malformed templates, '*'), against stores of capacity {0,1,2,10000} x shards {1,4,256}; adversarial stream adds, for every occurrence of the cache-key separator, the pair that moves text across it; a concurrent stage has 6 goroutines evaluate 3 template selectors on one store (capacity 0 and 1000) on fresh topics, every answer checked against the protocol relation; a hash-collision stream looks up pairs of distinct keys (same selector with a matching and a non-matching topic; two selectors) that a birthday search found to collide under FNV-32a, the cache's shard hash. Non-trivial = history that repeats a (topic, template-selector) pair and contains both a true and a false non-reflexive answer; distinct by content."
 	o := gen.NewOracle()
 	caps := []int{0, 1, 2, 10000}
 	shards := []int{1, 4, 256}
@@ -282,6 +342,7 @@ func runSel(c *h.Ctx, r *h.Report) {
 	for _, cs := range selCorpus() {
 		runSelCase(c, r, o, cs, "corpus")
 	}
+	concurrentSel(c, r, o)
 	for k := 0; k < c.Scale(2, 20); k++ {
 		for _, cs := range hashCollisionCases(c.Rand.Fork()) {
 			runSelCase(c, r, o, cs, "hash-collision")
